@@ -39,6 +39,8 @@ ASSUMPTIONS = [
     "a stream's compared target is host:port of the first line Tor reported for it; target_addr is compared only "
     "after a REMAP was reported; source address/port only if a SOURCE_ADDR was reported (snapshot lines carry none)",
     "BUILD_FLAGS of one circuit is either always present or always absent",
+    "relays outside the consensus may carry the nickname of a consensus relay (nicknames are not unique); every hop "
+    "of Circuit.path must have exactly the fingerprint Tor reported",
     "IPv6 literals may be kept with or without brackets",
     "a stream whose circuit died and that Tor has not yet reported may still reference the dead circuit object",
 ]
@@ -62,7 +64,7 @@ FLOORS = {
               "circuits_compared": 14000, "streams_compared": 14000, "attachments_compared": 4200,
               "snapshot_entries": 800, "circuit_id_reused": 400, "stream_id_reused": 550,
               "circuit_died_under_streams": 200, "detached_after_circuit_died": 70,
-              "reattached_to_other_circuit": 70, "hop_not_in_consensus": 700, "cannibalized": 35,
+              "reattached_to_other_circuit": 70, "hop_not_in_consensus": 700, "hop_outside_consensus_named_like_consensus_relay": 350, "cannibalized": 35,
               "closed_after_failed_delivered": 150, "stream_first_seen_in_mid_life": 150,
               "reach:txtorcon.stream:Stream.update": 4200, "reach:txtorcon.circuit:Circuit.update": 4200,
               "reach:txtorcon.torstate:TorState.circuit_destroy": 700,
@@ -70,12 +72,13 @@ FLOORS = {
     "thorough": {"evaluations": 10000, "oracle_evaluations": 250000, "events_delivered": 250000,
                  "circuits_compared": 500000, "streams_compared": 500000, "attachments_compared": 150000,
                  "snapshot_entries": 30000, "circuit_died_under_streams": 8000, "circuit_id_reused": 15000,
-                 "reattached_to_other_circuit": 2500},
+                 "reattached_to_other_circuit": 2500, "hop_outside_consensus_named_like_consensus_relay": 8000},
 }
 
 SIM_STATS = ["failed_closed_pairs", "stream_first_seen_in_mid_life", "circuit_id_reused", "stream_id_reused", "circuit_died_under_streams",
              "detached_after_circuit_died", "ended_after_circuit_died", "reattached_after_detach",
-             "reattached_to_other_circuit", "hop_not_in_consensus", "cannibalized",
+             "reattached_to_other_circuit", "hop_not_in_consensus",
+             "hop_outside_consensus_named_like_consensus_relay", "cannibalized",
              "purpose_changed_while_building"]
 
 
@@ -176,7 +179,9 @@ def compare(state, sim, rec=None):
             got_path = repr(e)
         if got_path != want_path:
             outside = any(not sim.relays[i].in_consensus for i, _ in m.path)
-            V("circuit-path", circ_class(m) + (",relay-outside-consensus" if outside else ""),
+            twin = any(st != "bare" and sim.nick_collides(i) for i, st in m.path)
+            V("circuit-path", circ_class(m) + (",relay-outside-consensus" if outside else "")
+              + (",nickname-of-consensus-relay" if twin else ""),
               {"id": cid, "got": got_path, "want": want_path}, who)
     n_s = n_att = 0
     stream_objs = {}
